@@ -1,22 +1,28 @@
 /-
-C05 property theorems (segwit-v0 channel types, symbolic script semantics of
-`LndModel.C04.Script`).
+C05 property theorems (symbolic script semantics of `LndModel.C04.Script`;
+segwit-v0 channel types unless a theorem says "taproot").
 
-* `local_commit_fully_signed`: the 2-of-2 funding script accepts the witness
-  `getSignedCommitTx` builds (both parties' signatures, in key order), and
-  rejects it when either signature is missing.
-* `second_level_valid`: on our own commitment, the HTLC-timeout transaction
-  (offered HTLC, locktime = expiry) and the HTLC-success transaction (received
-  HTLC, with the preimage), signed by the peer with the channel type's sighash
-  flag and by us with our tweaked HTLC key, satisfy the HTLC scripts; the
-  delayed to-local output and the second-level output are spendable with our
-  tweaked delay key once the CSV delay (and lease expiry) is reached.
-* `remote_commit_spends_valid`: on the peer's commitment, our to-remote output
-  (P2WKH / confirmed / lease), the claim of a received HTLC with the preimage
-  and the timeout of an offered HTLC at locktime = expiry are valid; so is the
-  anchor spend.
-* negatives: no timeout before expiry, no claim with a wrong preimage, no
-  delayed spend before the CSV delay.
+Signatures carry their sighash flag and what they were made over: our own sweep
+signatures are made over the final transaction; the peer's second-level HTLC
+signature is PRE-SIGNED over the one-input / one-output form of the second-level
+transaction with fixed nLockTime and sequence, and survives the sweeper's
+aggregation only with SIGHASH_SINGLE|ANYONECANPAY.  Transaction finality
+(nLockTime, BIP68) is part of the context (`includable`).
+
+* `local_commit_fully_signed`, `local_commit_needs_peer_sig`, `local_commit_sig_order`
+* `second_level_timeout_valid` / `_includable_iff` / `_locktime_forced` /
+  `_not_before_expiry`: valid, includable exactly from the block after expiry,
+  and no transaction with another locktime can use the peer's signature.
+* `second_level_success_valid`, `_needs_preimage`, `_wrong_preimage`
+* `second_level_sighash_anchors`: in an aggregated transaction the peer's
+  signature works iff its flag is SINGLE|ANYONECANPAY (wrong sighash ⇒ invalid);
+  `second_level_sighash_must_be_defined` for the non-aggregated case.
+* `delayed_outputs_valid`, `delayed_output_early_invalid`, `delayed_output_needs_age`
+* `to_remote_valid`, `remote_htlc_claim_valid`, `remote_htlc_timeout_valid`,
+  `remote_htlc_timeout_early_invalid`, `anchor_valid`, `all_spends_valid`
+* `taproot_script_path_spends_valid` (script-path spends only)
+* `claimable_value`: value covered by the resolutions of an abstract commitment
+  vs. balance + all HTLCs, up to dust trimming and msat truncation.
 -/
 import LndModel.C05.Lemmas
 
@@ -26,48 +32,113 @@ namespace LndModel.C05.Props
 open LndModel.C05 LndModel.C04.Script
 
 /-! the common unfolding set -/
-attribute [local simp] Close.valid Close.ctx Close.sequence Close.lockTime Close.script
-  Close.witness Close.signer Close.hasCltv Close.revocationKey Close.toLocalKey Close.toRemoteKey
+attribute [local simp] Close.valid Close.ctx Close.ctxAt Close.sequence Close.lockTime Close.script
+  Close.witness Close.witnessWith Close.peerSigOver Close.signer Close.hasCltv Close.revocationKey
+  Close.toLocalKey Close.toRemoteKey
   Close.localHtlcKey Close.remoteHtlcKey Close.fundingKey Close.peer htlcSigHashType
-  htlcSecondLevelSeq sigHashAll sigHashSingleAnyoneCanPay
+  htlcSecondLevelSeq sigHashAll sigHashSingleAnyoneCanPay sigHashDefault
   run delayOrRevoke leaseDelayOrRevoke toRemoteConfirmed leaseToRemoteConfirmed p2wkh anchor
   multiSig senderHTLC receiverHTLC witDelay witP2wkh witRedeem witRecvTimeout witSenderTimeout
   witReceiverRedeem witMultiSig
   runOps step exec skip opIfE opElseE opEndIfE opDup opSwap opDrop opSize opIfDup
   opEqual opEqualVerify opHash160 opCheckSig opCheckSigVerify opCheckMultiSig multiSigBody
-  opCsv opCltv popN msig sigMatch ifArg pk n sigCheck accepts truthy byteLen
+  opCsv opCltv popN msig sigMatch ifArg pk n sigCheck sigOk sigHashDefined sigCommits
+  accepts truthy byteLen
 
 /-- **local_commit_fully_signed** (model level): the funding 2-of-2 accepts the
-    two signatures in key order, whichever party's key sorts first. -/
+    two SIGHASH_ALL signatures in key order, whichever party's key sorts first. -/
 theorem local_commit_fully_signed (c : Close) (flip : Bool) :
-    run (c.ctx .funding 0) (c.script .funding 0 (.num 0) flip) (c.witness .funding (.num 0) flip)
-      = true := by
+    run (c.ctx .funding 0) (c.script .funding 0 (.num 0) flip)
+      (c.witness .funding 0 (.num 0) flip) = true := by
   cases flip <;> simp
 
 /-- without the peer's signature the commitment is not valid. -/
 theorem local_commit_needs_peer_sig (c : Close) (x : Ctx) (hx : x.tapscript = false) :
     run x (multiSig (c.fundingKey c.me) (c.fundingKey c.peer))
-      (witMultiSig (.sig (c.fundingKey c.me) 1 true) (.num 0)) = false := by
+      (witMultiSig (.sig (c.fundingKey c.me) 1 .final) (.num 0)) = false := by
   simp [hx]
 
 /-- signatures in the wrong order are rejected (CHECKMULTISIG is ordered). -/
 theorem local_commit_sig_order (a b : Key) (hab : a ≠ b) (x : Ctx) (hx : x.tapscript = false) :
-    run x (multiSig a b) (witMultiSig (.sig b 1 true) (.sig a 1 true)) = false := by
+    run x (multiSig a b) (witMultiSig (.sig b 1 .final) (.sig a 1 .final)) = false := by
   have hba : b ≠ a := fun h => hab h.symm
   simp [hx, hab, hba]
 
-/-- **second_level_valid**, HTLC-timeout transaction of an offered HTLC. -/
-theorem second_level_timeout_valid (c : Close) (expiry : Nat) (payHash : Item) :
-    c.valid .htlcTimeoutTx expiry payHash (.num 0) = true := by
+/-! ### second-level transactions on our own commitment -/
+
+/-- **second_level_valid**, HTLC-timeout transaction of an offered HTLC: with the
+    peer's pre-signed signature carrying `HtlcSigHashType`, in the transaction as
+    signed (`agg = false`) for every channel type and in the sweeper's
+    aggregated transaction (`agg = true`) for anchor types. -/
+theorem second_level_timeout_valid (c : Close) (expiry : Nat) (payHash : Item) (agg : Bool)
+    (hagg : agg = true → c.ct.anchors = true) :
+    c.valid .htlcTimeoutTx expiry payHash (.num 0) agg = true := by
   obtain ⟨⟨tweakless, anchors, zf, lease, taproot, tfinal⟩, me, init, csv, lexp, height⟩ := c
-  cases anchors <;> simp [csvOk_one]
+  cases anchors <;> cases agg <;> simp_all [csvOk_one]
+
+/-- The timeout transaction is includable exactly from the block after the
+    HTLC's expiry (and, for anchor types, one block after the commitment). -/
+theorem second_level_timeout_includable_iff (c : Close) (expiry h a : Nat) (agg : Bool)
+    (he : 0 < expiry) (hb : expiry < lockThreshold) (ha : 1 ≤ a) :
+    includable (c.ctxAt .htlcTimeoutTx expiry agg h a) = true ↔ expiry < h := by
+  obtain ⟨⟨tweakless, anchors, zf, lease, taproot, tfinal⟩, me, init, csv, lexp, height⟩ := c
+  have h0 : expiry ≠ 0 := by omega
+  cases anchors <;>
+    simp [includable, absFinal, relFinal, seqFinal, seqDisable, seqTypeFlag, seqMask, h0, hb] <;>
+    omega
+
+/-- **Not before expiry**: whatever transaction the peer's pre-signed signature
+    is placed in, the offered-HTLC script accepts it only if that transaction's
+    nLockTime is the HTLC's expiry (and its sequence the agreed one). -/
+theorem second_level_timeout_locktime_forced (c : Close) (x : Ctx) (expiry : Nat) (payHash : Item)
+    (hx : x.tapscript = false)
+    (h : run x (c.script .htlcTimeoutTx expiry payHash) (c.witness .htlcTimeoutTx expiry (.num 0))
+      = true) :
+    x.lockTime = expiry ∧ x.sequence = htlcSecondLevelSeq c.ct := by
+  obtain ⟨⟨tweakless, anchors, zf, lease, taproot, tfinal⟩, me, init, csv, lexp, height⟩ := c
+  have h1 : me ≠ 1 - me := by omega
+  have h2 : 1 - me ≠ me := by omega
+  cases anchors
+  · by_cases hc : x.lockTime = expiry ∧ x.sequence = 0
+    · simpa using hc
+    · exfalso
+      have hcm : (x.lockTime == expiry && x.sequence == 0) = false := by
+        cases hb : (x.lockTime == expiry && x.sequence == 0)
+        · rfl
+        · exfalso; apply hc; simpa using hb
+      simp [hx, h1, h2, hcm] at h
+  · by_cases hc : x.lockTime = expiry ∧ x.sequence = 1
+    · simpa using hc
+    · exfalso
+      have hcm : (x.lockTime == expiry && x.sequence == 1) = false := by
+        cases hb : (x.lockTime == expiry && x.sequence == 1)
+        · rfl
+        · exfalso; apply hc; simpa using hb
+      simp [hx, h1, h2, hcm] at h
+
+/-- hence it cannot be mined at or before the expiry height. -/
+theorem second_level_timeout_not_before_expiry (c : Close) (x : Ctx) (expiry : Nat)
+    (payHash : Item) (hx : x.tapscript = false) (he : 0 < expiry) (hb : expiry < lockThreshold)
+    (h : spendOk x (c.script .htlcTimeoutTx expiry payHash)
+      (c.witness .htlcTimeoutTx expiry (.num 0)) = true) :
+    expiry < x.blockHeight := by
+  unfold spendOk at h
+  rw [Bool.and_eq_true] at h
+  obtain ⟨hl, hs⟩ := second_level_timeout_locktime_forced c x expiry payHash hx h.1
+  have hi := h.2
+  have h0 : expiry ≠ 0 := by omega
+  have hs' : x.sequence ≠ seqFinal := by
+    rw [hs]; unfold htlcSecondLevelSeq seqFinal; split <;> decide
+  simp [includable, absFinal, hl, h0, hb, hs'] at hi
+  exact hi.1
 
 /-- **second_level_valid**, HTLC-success transaction of a received HTLC with the
     preimage of the payment hash. -/
-theorem second_level_success_valid (c : Close) (expiry p : Nat) :
-    c.valid .htlcSuccessTx expiry (.h160 (.pre p)) (.pre p) = true := by
+theorem second_level_success_valid (c : Close) (expiry p : Nat) (agg : Bool)
+    (hagg : agg = true → c.ct.anchors = true) :
+    c.valid .htlcSuccessTx expiry (.h160 (.pre p)) (.pre p) agg = true := by
   obtain ⟨⟨tweakless, anchors, zf, lease, taproot, tfinal⟩, me, init, csv, lexp, height⟩ := c
-  cases anchors <;> simp [csvOk_one]
+  cases anchors <;> cases agg <;> simp_all [csvOk_one]
 
 /-- the success transaction as produced at close time (no preimage yet) is not valid. -/
 theorem second_level_success_needs_preimage (c : Close) (expiry p : Nat) :
@@ -88,9 +159,55 @@ theorem second_level_success_wrong_preimage (c : Close) (expiry p q : Nat) (h : 
   have h' : p ≠ q := fun e => h e.symm
   cases anchors <;> simp [h, h']
 
+/-- **correct sighash per channel type**: in the sweeper's aggregated transaction
+    (anchor types) the second-level timeout spend is valid iff the peer's
+    signature carries SIGHASH_SINGLE|ANYONECANPAY - any other flag (in
+    particular SIGHASH_ALL) makes it invalid. -/
+theorem second_level_sighash_anchors (c : Close) (expiry ht : Nat) (payHash : Item)
+    (ha : c.ct.anchors = true) :
+    run (c.ctx .htlcTimeoutTx expiry true) (c.script .htlcTimeoutTx expiry payHash)
+      (c.witnessWith .htlcTimeoutTx expiry (.num 0) ht) = decide (ht = sigHashSingleAnyoneCanPay) := by
+  obtain ⟨⟨tweakless, anchors, zf, lease, taproot, tfinal⟩, me, init, csv, lexp, height⟩ := c
+  simp only at ha
+  subst ha
+  have h1 : me ≠ 1 - me := by omega
+  have h2 : 1 - me ≠ me := by omega
+  by_cases h : ht = 131
+  · subst h; simp [csvOk_one]
+  · have hb : (ht == 131) = false := by simp [h]
+    simp [h, hb, h1, h2]
+
+/-- and `HtlcSigHashType` is that flag exactly on anchor channels. -/
+theorem htlc_sighash_type_is_required_flag (c : Close) (expiry : Nat) (payHash : Item)
+    (ha : c.ct.anchors = true) :
+    htlcSigHashType c.ct = sigHashSingleAnyoneCanPay ∧
+    ∀ ht, ht ≠ htlcSigHashType c.ct →
+      run (c.ctx .htlcTimeoutTx expiry true) (c.script .htlcTimeoutTx expiry payHash)
+        (c.witnessWith .htlcTimeoutTx expiry (.num 0) ht) = false := by
+  have e : htlcSigHashType c.ct = sigHashSingleAnyoneCanPay := by simp [ha]
+  refine ⟨e, fun ht hne => ?_⟩
+  rw [second_level_sighash_anchors c expiry ht payHash ha]
+  rw [e] at hne
+  have : ht ≠ 131 := hne
+  simp [this]
+
+/-- in the transaction as signed, the peer's flag only has to be a defined one
+    (the engine rejects undefined flags). -/
+theorem second_level_sighash_must_be_defined (c : Close) (expiry ht : Nat) (payHash : Item) :
+    run (c.ctx .htlcTimeoutTx expiry false) (c.script .htlcTimeoutTx expiry payHash)
+      (c.witnessWith .htlcTimeoutTx expiry (.num 0) ht) = sigHashDefined false ht := by
+  obtain ⟨⟨tweakless, anchors, zf, lease, taproot, tfinal⟩, me, init, csv, lexp, height⟩ := c
+  have h1 : me ≠ 1 - me := by omega
+  have h2 : 1 - me ≠ me := by omega
+  have d1 : sigHashDefined false 1 = true := rfl
+  cases hd : sigHashDefined false ht <;> cases anchors <;>
+    simp [-sigHashDefined, hd, d1, h1, h2, csvOk_one]
+
+/-! ### delayed outputs -/
+
 /-- **second_level_valid**, delayed outputs: to-local and the second-level
-    output are spendable after the CSV delay; for the initiator of a leased
-    channel with locktime = lease expiry. -/
+    output are spendable with the tweaked delay key at sequence = CSV delay
+    (locktime = lease expiry for the initiator of a leased channel). -/
 theorem delayed_outputs_valid (c : Close) (s : Spend) (hs : s = .toLocal ∨ s = .secondLevelOut)
     (hseq : c.csv ≠ seqFinal) :
     c.valid s 0 (.num 0) (.num 0) = true := by
@@ -98,12 +215,39 @@ theorem delayed_outputs_valid (c : Close) (s : Spend) (hs : s = .toLocal ∨ s =
   rcases hs with rfl | rfl <;> cases lease <;> cases init <;>
     simp [csvOk_self, cltvOk_self, hseq] <;> simp_all [cltvOk_self]
 
-/-- before the CSV delay the delayed path is closed. -/
+/-- with a smaller sequence the delayed path is closed. -/
 theorem delayed_output_early_invalid (rev delay : Key) (csv seq lock : Nat) (sg : Item)
     (hd : csv < 65536) (hs : seq < csv) :
     run { version := 2, sequence := seq, lockTime := lock, tapscript := false }
       (delayOrRevoke rev delay csv) (witDelay sg) = false := by
   simp [csvOk_early _ _ _ _ _ hd hs]
+
+/-- **after the CSV delay, not before**: any includable transaction spending the
+    delayed path needs the output to be at least `csv` blocks old (OP_CSV forces
+    the sequence, BIP68 forces the age). -/
+theorem delayed_output_needs_age (x : Ctx) (rev delay : Key) (csv : Nat) (sg : Item)
+    (hd : csv < 65536)
+    (h : spendOk x (delayOrRevoke rev delay csv) (witDelay sg) = true) :
+    csv ≤ x.inputAge := by
+  unfold spendOk at h
+  rw [Bool.and_eq_true] at h
+  obtain ⟨hr, hi⟩ := h
+  have hcsv : csvOk x csv = true := by
+    by_cases hc : csvOk x csv = true
+    · exact hc
+    · simp [hc] at hr
+  have h1 : csv / seqDisable = 0 := by unfold seqDisable; omega
+  have h2 : csv / seqTypeFlag = 0 := by unfold seqTypeFlag; omega
+  have h3 : csv % seqMask = csv := by unfold seqMask; omega
+  simp [csvOk, h1, h2, h3] at hcsv
+  obtain ⟨⟨⟨hv, hdis⟩, hty⟩, hle⟩ := hcsv
+  simp [includable, relFinal] at hi
+  have hv' : ¬ x.version < 2 := by omega
+  have hd' : ¬ x.sequence / seqDisable % 2 = 1 := by omega
+  simp [hv', hd'] at hi
+  omega
+
+/-! ### the peer's commitment -/
 
 /-- **remote_commit_spends_valid**, our to-remote output in all its variants. -/
 theorem to_remote_valid (c : Close) :
@@ -128,7 +272,7 @@ theorem remote_htlc_timeout_valid (c : Close) (expiry : Nat) (payHash : Item) :
 theorem remote_htlc_timeout_early_invalid (c : Close) (expiry lock seq : Nat) (payHash : Item)
     (h : lock < expiry) :
     run { version := 2, sequence := seq, lockTime := lock, tapscript := false }
-      (c.script .htlcTimeout expiry payHash) (c.witness .htlcTimeout (.num 0)) = false := by
+      (c.script .htlcTimeout expiry payHash) (c.witness .htlcTimeout expiry (.num 0)) = false := by
   obtain ⟨⟨tweakless, anchors, zf, lease, taproot, tfinal⟩, me, init, csv, lexp, height⟩ := c
   cases anchors <;> simp [cltvOk_early _ _ _ _ _ h]
 
@@ -136,8 +280,7 @@ theorem remote_htlc_timeout_early_invalid (c : Close) (expiry lock seq : Nat) (p
 theorem anchor_valid (c : Close) : c.valid .anchor 0 (.num 0) (.num 0) = true := by
   simp
 
-/-- All spends the node holds, at once (non-vacuous: no hypothesis beyond a
-    meaningful CSV value). -/
+/-- All spends the node holds, at once (transactions as signed). -/
 theorem all_spends_valid (c : Close) (expiry p : Nat) (hseq : c.csv ≠ seqFinal) :
     c.valid .toLocal 0 (.num 0) (.num 0) = true ∧
     c.valid .secondLevelOut 0 (.num 0) (.num 0) = true ∧
@@ -148,38 +291,78 @@ theorem all_spends_valid (c : Close) (expiry p : Nat) (hseq : c.csv ≠ seqFinal
     c.valid .htlcTimeout expiry (.h160 (.pre p)) (.num 0) = true ∧
     c.valid .anchor 0 (.num 0) (.num 0) = true :=
   ⟨delayed_outputs_valid c _ (Or.inl rfl) hseq, delayed_outputs_valid c _ (Or.inr rfl) hseq,
-   second_level_timeout_valid c _ _, second_level_success_valid c _ _, to_remote_valid c,
-   remote_htlc_claim_valid c _ _, remote_htlc_timeout_valid c _ _, anchor_valid c⟩
+   second_level_timeout_valid c _ _ false (by simp), second_level_success_valid c _ _ false (by simp),
+   to_remote_valid c, remote_htlc_claim_valid c _ _, remote_htlc_timeout_valid c _ _, anchor_valid c⟩
 
-/-- **simple-taproot channels** (anchor-style, not leased; staging and final
-    scripts): every script-path spend the node holds satisfies its tapscript leaf.
-    The final variants end in `<n> OP_CSV` / `<expiry> OP_CLTV`, whose operand
-    stays on the stack as the result - hence `0 < csv` and `0 < expiry`. -/
-theorem taproot_spends_valid (c : Close) (s : Spend) (expiry p : Nat)
+/-! ### simple-taproot channels -/
+
+/-- **simple-taproot channels, script-path spends only** (anchor-style, not
+    leased; staging and final scripts): every script-path spend the node holds
+    satisfies its tapscript leaf, our signatures with SIGHASH_DEFAULT, the
+    peer's pre-signed one with SINGLE|ANYONECANPAY, also in the aggregated
+    transaction.  The key-path spends (MuSig2 funding output, anchors) are
+    excluded: they are checked by the real engine only.  The final variants end
+    in `<n> OP_CSV` / `<expiry> OP_CLTV`, whose operand stays on the stack as the
+    result - hence `csv ≠ 0` and `expiry ≠ 0`. -/
+theorem taproot_script_path_spends_valid (c : Close) (s : Spend) (expiry p : Nat) (agg : Bool)
+    (hs : s ≠ .funding ∧ s ≠ .anchor)
     (ha : c.ct.anchors = true) (hl : c.ct.lease = false)
     (hcsv : c.csv ≠ 0) (hexp : expiry ≠ 0) :
-    c.tapValid s expiry (.h160 (.pre p)) (.pre p) = true := by
+    c.tapValid s expiry (.h160 (.pre p)) (.pre p) agg = true := by
   obtain ⟨⟨tweakless, anchors, zf, lease, taproot, tfinal⟩, me, init, csv, lexp, height⟩ := c
   simp only at ha hl hcsv
   subst ha hl
   have t1 := truthy_num csv hcsv
   have t2 := truthy_num expiry hexp
-  cases s <;> cases tfinal <;> cases tweakless <;>
+  obtain ⟨hs1, hs2⟩ := hs
+  cases s <;> first | exact absurd rfl hs1 | exact absurd rfl hs2 | skip
+  all_goals
+    cases tfinal <;> cases tweakless <;> cases agg <;>
     simp [Close.tapValid, Close.tapScript, Close.tapWitness, Close.tapCtx, tapDelayLeaf,
       tapSenderTimeoutLeaf, tapSenderSuccessLeaf, tapReceiverSuccessLeaf, tapReceiverTimeoutLeaf,
       opVerify, csvOk_self, csvOk_one, cltvOk_self_seq1, t1, t2] <;>
     first | exact truthy_num _ hcsv | exact truthy_num _ hexp
 
-/-- **correct sighash per channel type**: the peer's HTLC signature the witness
-    carries has `SIGHASH_SINGLE|ANYONECANPAY` exactly on anchor channels. -/
-theorem htlc_sighash_by_type (ct : ChanType) :
-    htlcSigHashType ct = (if ct.anchors then 131 else 1) := by
-  simp [htlcSigHashType, sigHashAll, sigHashSingleAnyoneCanPay]
+/-! ### claimable value -/
+
+/-- **claimable_value** over an abstract commitment: the value (sat) of the
+    outputs our resolutions cover never exceeds what we are owed (balance plus
+    all HTLCs) and falls short of it by less than `lossBound`: the owner's dust
+    limit for a trimmed balance, dust limit + second-level fee for each trimmed
+    HTLC, and under 1 sat of msat truncation per output. -/
+theorem claimable_value (w : Weights) (ct : ChanType) (cm : Commitment) :
+    1000 * cm.claimable w ct ≤ cm.dueMsat ∧
+    cm.dueMsat < 1000 * (cm.claimable w ct + cm.lossBound w ct) := by
+  have hs := self_loss cm
+  have hh := htlcs_loss w ct cm cm.htlcs
+  unfold Commitment.claimable Commitment.dueMsat Commitment.lossBound
+  omega
+
+/-- without trimming nothing but sub-satoshi remainders is lost: if the balance
+    and every HTLC are above their thresholds, claimable = Σ of the sat amounts. -/
+theorem claimable_value_no_dust (w : Weights) (ct : ChanType) (cm : Commitment)
+    (hself : cm.dust ≤ cm.ownMsat / 1000)
+    (hall : ∀ h ∈ cm.htlcs,
+      htlcHasOutput w ct cm.feePerKw cm.dust h.incoming cm.localCommit h.amtMsat = true) :
+    cm.claimable w ct = cm.ownMsat / 1000 + sumMap (fun h => h.amtMsat / 1000) cm.htlcs := by
+  unfold Commitment.claimable Commitment.selfClaim
+  rw [if_pos hself]
+  congr 1
+  generalize cm.htlcs = l at hall
+  induction l with
+  | nil => rfl
+  | cons h t ih =>
+    simp only [sumMap]
+    rw [ih (fun x hx => hall x (List.mem_cons_of_mem _ hx))]
+    unfold Commitment.htlcClaim
+    rw [if_pos (hall h (List.mem_cons_self ..))]
 
 example : (Close.mk { anchors := true, zeroFee := true } 0 true 144 0 800000).valid .htlcSuccessTx
-    700144 (.h160 (.pre 3)) (.pre 3) = true := second_level_success_valid _ _ _
+    700144 (.h160 (.pre 3)) (.pre 3) true = true := second_level_success_valid _ _ _ _ (by simp)
 example : (Close.mk { anchors := true, zeroFee := true } 0 true 144 0 800000).valid .htlcSuccessTx
     700144 (.h160 (.pre 3)) (.pre 4) = false :=
   second_level_success_wrong_preimage _ _ _ _ (by decide)
+example : (Commitment.mk true 5000500 2500 546 [⟨true, 2000000⟩, ⟨false, 700000⟩]).claimable {}
+    { anchors := true } = 5000 := by decide
 
 end LndModel.C05.Props
